@@ -203,3 +203,31 @@ def single_function_package(files, fn, calls):
     out["p/p.go"] = head + "\n" + body + "\n"
     out["p/run.go"] = pre + "func RunAll() {\n" + "\n".join(lines) + "\n}\n"
     return out, [c for c in calls if c[1] == fn]
+
+
+# listed as failing by the repository because Perennial's executable interpreter lacks the string primitives,
+# not because the GooseLang semantics differs from Go
+MAY_PASS = {"failing_testStringAppend", "failing_testStringLength"}
+
+
+def calibrate():
+    """K3: the repository's own semantics suite, as frozen in semantics.gold.v, evaluated by the Lean
+    interpreter: every test* function must evaluate to #true, no failing_test* function may.
+    Returns (ntests, nfailing, problems)."""
+    path = os.path.join(C.REPO, "internal", "examples", "semantics", "semantics.gold.v")
+    text = open(path).read()
+    reps = gl_session(text, ["names"])
+    if reps[0].startswith("parse-error"):
+        return 0, 0, ["semantics.gold.v does not parse: " + unhex(reps[0])]
+    names = reps[1][6:].split(",")
+    tests = [n for n in names if re.match(r"test[A-Z0-9]", n)]
+    failing = [n for n in names if n.startswith("failing_test")]
+    out = gl_session(text, ["eval " + n for n in tests + failing])[1:]
+    problems = []
+    for n, rep in zip(tests + failing, out):
+        ok = rep == "value true"
+        if n in tests and not ok:
+            problems.append("%s evaluates to `%s`, the repository says true" % (n, unhex(rep)[:80]))
+        if n in failing and ok and n not in MAY_PASS:
+            problems.append("%s evaluates to true although the repository lists it as failing in GooseLang" % n)
+    return len(tests), len(failing), problems
